@@ -107,6 +107,15 @@ def bits(x):
 def same_coords(A, B):
     if len(A) != len(B):
         return False
+    if len(A) > 64:
+        # large inputs: compare the bit patterns in bulk (falls back to the plain loop on anything irregular)
+        try:
+            import numpy as np
+            a = np.asarray(A, dtype=np.float64); b = np.asarray(B, dtype=np.float64)
+            if a.ndim == 2 and a.shape == b.shape and a.shape[1] == 3:
+                return bool(np.array_equal(np.ascontiguousarray(a).view(np.int64), np.ascontiguousarray(b).view(np.int64)))
+        except (ValueError, TypeError):
+            pass
     for a, b in zip(A, B):
         if len(a) != 3 or len(b) != 3:
             return False
@@ -117,6 +126,8 @@ def same_coords(A, B):
 
 
 def first_coord_diff(A, B):
+    if len(A) > 64 and same_coords(A, B):
+        return "same"
     if len(A) != len(B):
         return f"{len(A)} vertices vs {len(B)} expected"
     for i, (a, b) in enumerate(zip(A, B)):
@@ -743,8 +754,17 @@ def soup_corners(soup):
 
 # ================================================================================================ comparisons
 
+def _trim(x, k=40):
+    """the head of big containers only (messages are built even when the check holds: keep that cheap on large cases)"""
+    if isinstance(x, (list, tuple)) and len(x) > k:
+        return list(x[:k]) + ["...(%d in all)" % len(x)]
+    if isinstance(x, dict):
+        return {a: _trim(b, k) for a, b in x.items()}
+    return x
+
+
 def short(x, n=260):
-    s = repr(x)
+    s = repr(_trim(x))
     return s if len(s) <= n else s[:n] + "..."
 
 
@@ -1386,9 +1406,11 @@ COUNTS = [253, 254, 255, 256, 257, 511, 512, 513, 768, 1024, 1280, 2048, 4096, 4
 @st.composite
 def counts_case(draw):
     fmt = draw(st.sampled_from(["stl", "stl", "stl", "obj", "mesh", "geogram_ascii", "off", "tet", "xyz"]))
-    n = draw(st.one_of(st.sampled_from(COUNTS[:14]), st.sampled_from(COUNTS[:14]), st.sampled_from(COUNTS), st.integers(1, 3000),
-                       st.integers(1, 40).map(lambda k: 256 * k)))
-    return {"fmt": fmt, "strip": {"n": n, "quads": draw(st.booleans()) and fmt != "off", "scale": draw(st.sampled_from([1.0, 1 / 3, 1e-5]))},
+    n = draw(st.one_of(st.sampled_from(COUNTS[:14]), st.sampled_from(COUNTS[:14]), st.integers(1, 3000), st.integers(1, 40).map(lambda k: 256 * k)))
+    big = draw(st.integers(0, 39)) == 0        # 65535 .. 65537 elements: each such case costs 5 - 20 s, so about 1 case in 40
+    if big:
+        n = draw(st.sampled_from(COUNTS[14:]))
+    return {"fmt": fmt, "strip": {"n": n, "quads": draw(st.booleans()) and fmt != "off" and not big, "scale": draw(st.sampled_from([1.0, 1 / 3, 1e-5]))},
             "cfg": {"export_edges_in_obj": True, "complete_edges_from_faces": draw(st.sampled_from([True, True, False]))},
             "var": {"blank": False, "spaces": False, "floats": "repr", "seed": draw(st.integers(0, 11)), "face_style": "v", "dim_two_lines": False,
                     "refs": False, "extra_blocks": False, "comments": False, "end": True, "stl_kind": draw(st.sampled_from(["binary", "binary", "ascii"])),
@@ -1439,6 +1461,30 @@ def fn_counts_ext(case, ctx):
         ctx.label("count:>=65535")
 
 
+# ---- more than 65536 entries in one field, every text format, in every quick run: a point cloud is the cheapest mesh that has them
+
+@st.composite
+def counts_big_case(draw):
+    # (the first example of every shard is the simplest one = 65537 points)
+    return {"n": draw(st.sampled_from([65537, 65536, 131073, 65535, 70001])), "scale": draw(st.sampled_from([1.0, 1 / 3, 1e-5])),
+            "fmt": "all-text-formats"}
+
+
+def fn_counts_big(case, ctx):
+    ctx.label(f"count-big:points={case['n']}")
+    ctx.nontrivial(True)
+    for fmt in ("mesh", "obj", "geogram_ascii", "off", "tet", "xyz"):
+        rec = {"fmt": "xyz", "strip": {"n": case["n"], "quads": False, "scale": case["scale"]},
+               "cfg": {"export_edges_in_obj": True, "complete_edges_from_faces": True},
+               "var": {"blank": False, "spaces": False, "floats": "repr", "seed": 0, "face_style": "v", "dim_two_lines": False, "refs": False,
+                       "extra_blocks": False, "comments": False, "end": True, "stl_kind": "binary", "indent": False, "solids": 1, "groups": False,
+                       "off_colors": None}}
+        full = realise_strip(rec)
+        full["fmt"] = fmt
+        fn_roundtrip(full, ctx)
+        fn_ext(full, ctx)
+
+
 def fn_large(case, ctx):
     full = realise_large(case)
     ctx.label("large:" + case["fmt"])
@@ -1459,10 +1505,11 @@ for _f in ["obj", "mesh", "geogram_ascii", "tet", "xyz", "stl", "off"]:
     SUBCHECKS.append(SubCheck(NAMES[_f], case_strategy(_f), fn_roundtrip, quick=160 if _f == "stl" else 240, thorough=1500))
     SUBCHECKS.append(SubCheck(NAMES[_f] + "_ext", case_strategy(_f), fn_ext, quick=96 if _f == "stl" else 176, thorough=1000))
 # files well above any plausible buffer / chunk size of the readers and writers (1 - 5 MiB); few cases, each costs seconds
-SUBCHECKS.insert(0, SubCheck("counts_ext", counts_case(), fn_counts_ext, quick=40, thorough=60, watchdog=(180, 400)))
-SUBCHECKS.insert(0, SubCheck("counts", counts_case(), fn_counts, quick=64, thorough=80, watchdog=(180, 400)))
-SUBCHECKS.insert(0, SubCheck("large_ext", large_case(), fn_large_ext, quick=24, thorough=12, watchdog=(180, 400)))
-SUBCHECKS.insert(0, SubCheck("large", large_case(), fn_large, quick=24, thorough=12, watchdog=(180, 400)))
+SUBCHECKS.insert(0, SubCheck("counts_big", counts_big_case(), fn_counts_big, quick=8, thorough=3, watchdog=(300, 600)))
+SUBCHECKS.insert(0, SubCheck("counts_ext", counts_case(), fn_counts_ext, quick=32, thorough=60, watchdog=(180, 400)))
+SUBCHECKS.insert(0, SubCheck("counts", counts_case(), fn_counts, quick=48, thorough=80, watchdog=(180, 400)))
+SUBCHECKS.insert(0, SubCheck("large_ext", large_case(), fn_large_ext, quick=16, thorough=12, watchdog=(180, 400)))
+SUBCHECKS.insert(0, SubCheck("large", large_case(), fn_large, quick=16, thorough=12, watchdog=(180, 400)))
 
 
 # ---------------------------------------------------------------------------------------------- proposed known findings
